@@ -30,9 +30,11 @@ const (
 func init() {
 	fw.Register(&fw.Prop{
 		ID:                  "C16",
-		DeadlockIsViolation: true,                       // the calls of this property are synchronous functions of their inputs: a call blocked for good inside the library is a violation
-		Builds:              []string{"default", "386"}, // the 386 build runs 1/4 of the random classes on a 32-bit target
-		Scale386:            4,
+		DeadlockIsViolation: true,                               // the calls of this property are synchronous functions of their inputs: a call blocked for good inside the library is a violation
+		Builds:              []string{"default", "386", "race"}, // the 386 build runs 1/4 of the random classes on a 32-bit target
+		// race build: only the classes in which several goroutines are inside the library at once, under the race detector
+		RaceClasses: []string{"concurrent"},
+		Scale386:    4,
 		// a history case scans its share of all 2^30 checksum values when Decode turns out to depend on the call before it
 		StallClass:       map[string]int{"history": 1500, "acceptset": 1500}, // scans of millions of rejected strings: slow when rejections are slow
 		WatchdogQuick:    3000,
@@ -603,6 +605,14 @@ func bases(seed int64, n int) []string {
 }
 
 func gen(g *fw.Gen) {
+	if g.Build == "race" {
+		// race build: only the class in which several goroutines are inside the library at once is generated
+		// (the generator of the other classes is expensive under the race detector's instrumentation)
+		for n := g.ShareOf(32, 1600); n > 0; n-- {
+			g.Emit("concurrent", fw.Pack(fw.U64(g.Rng.Uint64())))
+		}
+		return
+	}
 	if g.Shard == 0 {
 		g.Emit("syndrome", fw.Pack(fw.U64(uint64(g.Seed))))
 	}
